@@ -6,6 +6,7 @@ using namespace sv;
 namespace {
 struct Grid : public squids::SQuIDS {
   Grid(unsigned nx) : squids::SQuIDS(nx, 2, 1, 0, 0.0) {}
+  void reinit(unsigned nx) { ini(nx, 2, 1, 0, 0.0); }
 };
 double ulps(double a, double b) {  // distance in units of the spacing at max(|a|,|b|)
   if (a == b) return 0;
@@ -80,6 +81,17 @@ void run_C17(vh::Ctx& c) {
     if (idx < E) c.count("nx.exhaustive_2_130"); else c.count("nx.random");
     c.count(((nx - 1) & (nx - 2)) == 0 ? "nx_minus_1.power_of_two" : "nx_minus_1.other");
     Grid g(nx);
+    // the same object is then re-initialised with another node count (mostly fewer): what it held before must not show
+    for (int life = 0; life < 2; life++) {
+    std::string lifetag;
+    if (life == 1) {
+      unsigned old = nx;
+      int how = r.pick(10);
+      nx = how < 6 ? 2 + r.pick(std::max(1u, old - 2)) : (how < 9 ? old + 1 + r.pick(200) : old);
+      g.reinit(nx);
+      lifetag = vh::fmt(" (object re-initialised from nx=%u)", old);
+      c.count(nx < old ? "reinit.fewer_nodes" : (nx > old ? "reinit.more_nodes" : "reinit.same_nodes"));
+    }
     int per = nx <= 40 ? 16 : (nx <= 300 ? 3 : 0);
     for (int kind = 0; kind < 3; kind++) {
       std::string what;
@@ -92,7 +104,7 @@ void run_C17(vh::Ctx& c) {
         if (r.coin(0.15)) { double sc = std::pow(10.0, -r.range(12, 290)); a = r.normal() * sc * (r.coin(0.3) ? 0 : 1); w = r.logu(0.01, 100) * sc; }  // tiny absolute scales: a<b is all that is required
         double b = a + w;
         if (!(b > a)) b = std::nextafter(a, INFINITY);  // the property is about a<b; w may vanish against a large |a|
-        what = vh::fmt("linear grid nx=%u [%.17g,%.17g]", nx, a, b);
+        what = vh::fmt("linear grid nx=%u [%.17g,%.17g]", nx, a, b) + lifetag;
         c.desc(what);
         req_a = a; req_b = b;
         g.Set_xrange(a, b, r.coin() ? "linear" : "Lin");
@@ -104,7 +116,7 @@ void run_C17(vh::Ctx& c) {
         double a = r.logu(1e-10, 1e8), b = a * r.logu(1.0 + 1e-6, 1e10);
         if (r.coin(0.2)) { a = 1; b = 1000; }
         if (r.coin(0.15)) { a = r.logu(1e-10, 1e-8); b = a * (1 + std::pow(10.0, -r.range(2, 13))); if (!(b > a)) b = std::nextafter(a, INFINITY); }  // narrow ranges at the small end
-        what = vh::fmt("log grid nx=%u [%.17g,%.17g]", nx, a, b);
+        what = vh::fmt("log grid nx=%u [%.17g,%.17g]", nx, a, b) + lifetag;
         c.desc(what);
         req_a = a; req_b = b;
         g.Set_xrange(a, b, r.coin() ? "log" : "Log");
@@ -123,7 +135,7 @@ void run_C17(vh::Ctx& c) {
                            case 3: step = r.coin(0.1) ? 1e6 : r.uni(0.1, 1); break; default: step = r.logu(1e-6, 1e3); }
           v += step;
         }
-        what = vh::fmt("user grid nx=%u shape=%d [%.17g,%.17g]", nx, shape, u.front(), u.back());
+        what = vh::fmt("user grid nx=%u shape=%d [%.17g,%.17g]", nx, shape, u.front(), u.back()) + lifetag;
         c.desc(what);
         g.Set_xrange(u);
         x = g.Get_xrange();
@@ -161,6 +173,7 @@ void run_C17(vh::Ctx& c) {
       }
       if (nx > 300) for (int m = 0; m < 400; m++) query(c, g, x, x.front() + (x.back() - x.front()) * r.u01(), what);
       if (idx < 3) c.sample(what);
+    }
     }
   });
 }
